@@ -363,10 +363,11 @@ Section Loop.
   Definition rec_conv (r : irecR) : bool :=
     (ir_eps (it_res r) <=? p_tol P)%num && is_converged (ir_status (it_res r)) && (it_norm r <=? p_dual_tol P)%num.
   Definition rec_ooi (r : irecR) : bool := Nat.eqb (S (it_i r)) (p_max_iter P).
-  Definition rec_exit (r : irecR) : bool := rec_conv r || rec_ooi r || ir_oot (it_res r).
+  (* exit = alm_converged || out_of_iter || out_of_time || interrupted   (interrupted = ALM's own stop flag, ir_stop) *)
+  Definition rec_exit (r : irecR) : bool := rec_conv r || rec_ooi r || ir_oot (it_res r) || ir_stop (it_res r).
   Definition rec_status (r : irecR) : status :=
     if is_interrupted (ir_status (it_res r)) then Interrupted
-    else exit_status (rec_conv r) (ir_oot (it_res r)) (rec_ooi r).
+    else exit_status (rec_conv r) (ir_oot (it_res r)) (rec_ooi r) (ir_stop (it_res r)).
   (* the loop goes on after this iteration *)
   Definition continuing (r : irecR) : Prop :=
     is_interrupted (ir_status (it_res r)) = false /\ rec_exit r = false.
@@ -471,9 +472,35 @@ Section Loop.
     destruct (is_interrupted (ir_status r)); [cbn; lia|].
     destruct (rec_exit (mkrec i s r)) eqn:Hx; [cbn; lia|].
     unfold rec_exit, rec_ooi in Hx. cbn [it_i mkrec] in Hx.
+    apply orb_false_iff in Hx. destruct Hx as [Hx _].
     apply orb_false_iff in Hx. destruct Hx as [Hx _]. apply orb_false_iff in Hx. destruct Hx as [_ Hx].
     apply Nat.eqb_neq in Hx. assert (Hi' : (S i < p_max_iter P)%nat) by lia.
     cbn [fst snd]. destruct (IH (S i) (next i s r) Hi'). cbn [length]. lia.
+  Qed.
+
+  (* the record after whose inner solve ALM's own flag is read as set is the last one of the trace *)
+  Lemma loop_stop_ends script : forall i s pre r post,
+    fst (alm_loop P pb i s script) = pre ++ r :: post -> ir_stop (it_res r) = true ->
+    post = [] /\ f_exhausted (snd (alm_loop P pb i s script)) = false /\
+    f_outer (snd (alm_loop P pb i s script)) = S (it_i r) /\
+    f_status (snd (alm_loop P pb i s script)) = rec_status r /\ it_i r = (i + length pre)%nat.
+  Proof.
+    induction script as [|r0 rest IH]; intros i s pre r post Htr Hs; [destruct pre; discriminate|].
+    rewrite alm_loop_cons in *.
+    assert (Hone : [mkrec i s r0] = pre ++ r :: post ->
+              post = [] /\ r = mkrec i s r0 /\ pre = []).
+    { intros E. destruct pre as [|a pre]; cbn [app] in E; [inversion E; subst; auto|].
+      inversion E as [[E1 E2]]. destruct pre; discriminate. }
+    destruct (is_interrupted (ir_status r0)) eqn:Hint.
+    { cbn [fst snd] in *. destruct (Hone Htr) as (-> & -> & ->). cbn [length].
+      unfold rec_status. cbn [it_res mkrec it_i]. rewrite Hint. cbn. repeat split; lia. }
+    destruct (rec_exit (mkrec i s r0)) eqn:Hx.
+    { cbn [fst snd] in *. destruct (Hone Htr) as (-> & -> & ->). cbn [length]. cbn. repeat split; lia. }
+    cbn [fst snd] in *. destruct pre as [|a pre]; cbn [app] in Htr.
+    - exfalso. inversion Htr as [[E1 E2]]. subst r. cbn [it_res mkrec] in Hs.
+      unfold rec_exit in Hx. cbn [it_res mkrec] in Hx. rewrite Hs in Hx. rewrite orb_true_r in Hx. discriminate.
+    - inversion Htr as [[E1 E2]]. destruct (IH _ _ _ _ _ E2 Hs) as (A & B & C & D & E).
+      repeat split; auto. cbn [length]. lia.
   Qed.
 End Loop.
 
@@ -822,9 +849,13 @@ End Run.
 Section Status.
   Variable P : alm_params (T:=R).
 
-  Lemma exit_status_converged c oot ooi : exit_status c oot ooi = Converged <-> c = true.
-  Proof. unfold exit_status. destruct c, oot, ooi; split; intros; try discriminate; auto. Qed.
-  Lemma exit_status_not_interrupted c oot ooi : exit_status c oot ooi <> Interrupted.
+  Lemma exit_status_converged c oot ooi intr : exit_status c oot ooi intr = Converged <-> c = true.
+  Proof. unfold exit_status. destruct c, oot, ooi, intr; split; intros; try discriminate; auto. Qed.
+  (* Interrupted out of the exit block: ALM's own flag is set and no higher-ranked condition holds *)
+  Lemma exit_status_interrupted c oot ooi intr :
+    exit_status c oot ooi intr = Interrupted <-> c = false /\ oot = false /\ ooi = false /\ intr = true.
+  Proof. unfold exit_status. destruct c, oot, ooi, intr; split; intros; try discriminate; try tauto; intuition discriminate. Qed.
+  Lemma exit_status_no_flag c oot ooi : exit_status c oot ooi false <> Interrupted.
   Proof. unfold exit_status. destruct c, oot, ooi; discriminate. Qed.
 
   Lemma rec_status_converged_iff (r : irecR) :
@@ -838,35 +869,55 @@ Section Status.
     - apply exit_status_converged.
   Qed.
 
+  (* Interrupted: the inner solver said so, or ALM's own flag was set after a solve that ended otherwise and none of
+     Converged / MaxTime / MaxIter applies *)
   Lemma rec_status_interrupted_iff (r : irecR) :
-    rec_status P r = Interrupted <-> ir_status (it_res r) = Interrupted.
+    rec_status P r = Interrupted <->
+    ir_status (it_res r) = Interrupted \/
+    (ir_stop (it_res r) = true /\ rec_conv P r = false /\ ir_oot (it_res r) = false /\ rec_ooi P r = false).
   Proof.
     unfold rec_status. destruct (is_interrupted (ir_status (it_res r))) eqn:Hi.
     - apply is_interrupted_iff in Hi. tauto.
-    - split; [intros H; exfalso; exact (exit_status_not_interrupted _ _ _ H)|].
-      intros H. apply is_interrupted_iff in H. congruence.
+    - rewrite exit_status_interrupted. split.
+      + intros (A & B & C & D). right. tauto.
+      + intros [H|H]; [apply is_interrupted_iff in H; congruence|tauto].
   Qed.
 
-  (* Converged > MaxTime > MaxIter, and MaxIter only on the last permitted iteration *)
+  (* the status of the record at which ALM's own flag is read as set: the ranking spelled out *)
+  Lemma rec_status_stop (r : irecR) : ir_stop (it_res r) = true ->
+    rec_exit P r = true /\
+    rec_status P r =
+      (if is_interrupted (ir_status (it_res r)) then Interrupted
+       else if rec_conv P r then Converged else if ir_oot (it_res r) then MaxTime
+       else if rec_ooi P r then MaxIter else Interrupted) /\
+    (rec_status P r = Converged \/ rec_status P r = MaxTime \/ rec_status P r = MaxIter \/ rec_status P r = Interrupted).
+  Proof.
+    intros Hs. unfold rec_exit, rec_status, exit_status. rewrite Hs.
+    destruct (is_interrupted _), (rec_conv P r), (ir_oot _), (rec_ooi P r); cbn; auto 10.
+  Qed.
+
+  (* Converged > MaxTime > MaxIter > Interrupted (own flag), and MaxIter only on the last permitted iteration *)
   Lemma rec_status_selection (r : irecR) : ~ continuing P r ->
     ir_status (it_res r) <> Interrupted -> rec_conv P r = false ->
     (ir_oot (it_res r) = true -> rec_status P r = MaxTime) /\
-    (ir_oot (it_res r) = false -> rec_status P r = MaxIter /\ S (it_i r) = p_max_iter P).
+    (ir_oot (it_res r) = false -> S (it_i r) = p_max_iter P -> rec_status P r = MaxIter) /\
+    (ir_oot (it_res r) = false -> S (it_i r) <> p_max_iter P -> rec_status P r = Interrupted /\ ir_stop (it_res r) = true).
   Proof.
     intros Hnc Hni Hc. unfold rec_status, continuing, rec_exit in *.
     destruct (is_interrupted (ir_status (it_res r))) eqn:Hi; [apply is_interrupted_iff in Hi; contradiction|].
-    rewrite Hc in *. cbn [orb exit_status] in *. split; intros Ho; rewrite Ho in *.
+    rewrite Hc in *. cbn [orb exit_status] in *. split; [|split]; intros Ho; rewrite Ho in *.
     - reflexivity.
-    - destruct (rec_ooi P r) eqn:Hooi.
-      + split; [reflexivity|]. apply Nat.eqb_eq. exact Hooi.
-      + exfalso. apply Hnc. split; reflexivity.
+    - intros Hooi. apply Nat.eqb_eq in Hooi. unfold rec_ooi. rewrite Hooi. reflexivity.
+    - intros Hooi. apply Nat.eqb_neq in Hooi. unfold rec_ooi in *. rewrite Hooi in *. cbn [orb] in *.
+      destruct (ir_stop (it_res r)); [split; reflexivity|]. exfalso. apply Hnc. split; reflexivity.
   Qed.
 
   Lemma continuing_facts (r : irecR) : continuing P r ->
     ir_status (it_res r) <> Interrupted /\ rec_conv P r = false /\ ir_oot (it_res r) = false /\
-    S (it_i r) <> p_max_iter P.
+    S (it_i r) <> p_max_iter P /\ ir_stop (it_res r) = false.
   Proof.
-    intros [Hi Hx]. unfold rec_exit in Hx. apply orb_false_iff in Hx. destruct Hx as [Hx Ho].
+    intros [Hi Hx]. unfold rec_exit in Hx. apply orb_false_iff in Hx. destruct Hx as [Hx Hs].
+    apply orb_false_iff in Hx. destruct Hx as [Hx Ho].
     apply orb_false_iff in Hx. destruct Hx as [Hc Hooi]. repeat split; auto.
     - intros H. apply is_interrupted_iff in H. congruence.
     - apply Nat.eqb_neq. exact Hooi.
@@ -902,12 +953,14 @@ Section Witness.
   Definition wpb : alm_problem (T:=R) := {| pb_split := 0; pb_lb := [Some (-1)]; pb_ub := [Some 1] |}.
   (* an inner solve that hits its iteration limit and leaves a constraint violation of 1 *)
   Definition wr : iresR :=
-    {| ir_status := MaxIter; ir_eps := 1; ir_err := Some [1]; ir_y := None; ir_iters := 1%nat; ir_oot := false |}.
+    {| ir_status := MaxIter; ir_eps := 1; ir_err := Some [1]; ir_y := None; ir_iters := 1%nat; ir_oot := false;
+       ir_stop := false |}.
 
   Lemma w_continuing itol tol Σ0 nanv :
     continuing (wP itol tol) (mkrec (wP itol tol) wpb 0 (init_state (wP itol tol) wpb 0 [0] nanv Σ0 [0]) wr).
   Proof.
-    split; [reflexivity|]. unfold rec_exit. apply orb_false_iff. split; [apply orb_false_iff; split|reflexivity].
+    split; [reflexivity|]. unfold rec_exit. apply orb_false_iff. split; [|reflexivity].
+    apply orb_false_iff. split; [apply orb_false_iff; split|reflexivity].
     - destruct (rec_conv _ _) eqn:E; [|reflexivity]. apply rec_conv_iff in E. destruct E as [E _]. discriminate E.
     - reflexivity.
   Qed.
@@ -1038,28 +1091,36 @@ Section RunEnd.
     exact Hr.
   Qed.
 
-  (* Interrupted is returned at once: no inner solve follows an interrupted one, and the status says so *)
+  (* Interrupted is returned at once: no inner solve follows an interrupted one or one after which ALM's own stop flag was
+     read as set, and the status says so (Interrupted iff the last inner solve was interrupted, or the flag was set after it
+     and none of Converged / MaxTime / MaxIter applies) *)
   Lemma run_interrupted_immediate :
     exists (pre : list irecR) (r : irecR), fst (alm_run P pb f0 g0 nanv Σ0 y0 script) = pre ++ [r] /\
-      Forall (fun a => ir_status (it_res a) <> Interrupted) pre /\
-      (f_status (snd (alm_run P pb f0 g0 nanv Σ0 y0 script)) = Interrupted <-> ir_status (it_res r) = Interrupted).
+      Forall (fun a => ir_status (it_res a) <> Interrupted /\ ir_stop (it_res a) = false) pre /\
+      (f_status (snd (alm_run P pb f0 g0 nanv Σ0 y0 script)) = Interrupted <->
+       ir_status (it_res r) = Interrupted \/
+       (ir_stop (it_res r) = true /\ rec_conv P r = false /\ ir_oot (it_res r) = false /\ length (pre ++ [r]) <> p_max_iter P)).
   Proof.
     destruct (run_final P pb f0 g0 nanv Σ0 y0 script Hmi Hm Hex) as (pre & r & Htr & Hpre & Hlast & Hi & Hf).
     cbv zeta in Hf. destruct Hf as (H1 & _).
     exists pre, r. split; [exact Htr|]. split.
-    - eapply Forall_impl; [|exact Hpre]. intros a Ha. apply (continuing_facts P a Ha).
-    - rewrite H1. apply rec_status_interrupted_iff.
+    - eapply Forall_impl; [|exact Hpre]. intros a Ha. destruct (continuing_facts P a Ha) as (A & _ & _ & _ & B). split; assumption.
+    - rewrite H1, rec_status_interrupted_iff, app_length. cbn [length]. rewrite Nat.add_1_r, <- Hi. unfold rec_ooi.
+      destruct (Nat.eqb_spec (S (it_i r)) (p_max_iter P)); intuition congruence.
   Qed.
 
-  (* status selection Converged > MaxTime > MaxIter; the loop never goes on after an exit condition; hands back Σ last used *)
+  (* status selection Converged > MaxTime > MaxIter > Interrupted (ALM's own flag); the loop never goes on after an exit
+     condition; hands back Σ last used *)
   Lemma run_status_selection :
     exists (pre : list irecR) (r : irecR), fst (alm_run P pb f0 g0 nanv Σ0 y0 script) = pre ++ [r] /\
       Forall (fun a => ir_status (it_res a) <> Interrupted /\ rec_conv P a = false /\ ir_oot (it_res a) = false /\
-                       S (it_i a) <> p_max_iter P) pre /\
+                       S (it_i a) <> p_max_iter P /\ ir_stop (it_res a) = false) pre /\
       let f := snd (alm_run P pb f0 g0 nanv Σ0 y0 script) in
       (ir_status (it_res r) <> Interrupted -> rec_conv P r = false ->
          (ir_oot (it_res r) = true -> f_status f = MaxTime) /\
-         (ir_oot (it_res r) = false -> f_status f = MaxIter /\ length (pre ++ [r]) = p_max_iter P)) /\
+         (ir_oot (it_res r) = false -> length (pre ++ [r]) = p_max_iter P -> f_status f = MaxIter) /\
+         (ir_oot (it_res r) = false -> length (pre ++ [r]) <> p_max_iter P ->
+            f_status f = Interrupted /\ ir_stop (it_res r) = true)) /\
       f_Sigma f = Some (it_Sigma r) /\ f_outer f = length (pre ++ [r]) /\
       f_y f = pick (pb_m pb) (ir_y (it_res r)) (it_y r) /\ f_norm_pen f = norm_penalty (it_Sigma r).
   Proof.
@@ -1067,11 +1128,41 @@ Section RunEnd.
     cbv zeta in Hf. destruct Hf as (H1 & H2 & H3 & H4 & H5 & H6 & H7).
     exists pre, r. split; [exact Htr|]. split.
     - eapply Forall_impl; [|exact Hpre]. intros a Ha. apply (continuing_facts P a Ha).
-    - cbv zeta. rewrite H1, H2, H3, H6, H7, app_length, Hi. cbn [length]. split; [|repeat split; lia].
-      intros Hni Hc. destruct (rec_status_selection P r Hlast Hni Hc) as [Ha Hb]. split; [exact Ha|].
-      intros Ho. destruct (Hb Ho) as [Hb1 Hb2]. split; [exact Hb1|]. lia.
+    - cbv zeta. rewrite H1, H2, H3, H6, H7, app_length, Hi. cbn [length]. rewrite Nat.add_1_r. split; [|repeat split; lia].
+      intros Hni Hc. rewrite <- Hi. exact (rec_status_selection P r Hlast Hni Hc).
   Qed.
+
 End RunEnd.
+
+Section RunStop.
+  Variable P : alm_params (T:=R).
+  Variable pb : alm_problem (T:=R).
+  Variables (f0 : R) (g0 : list R) (nanv : R) (Σ0 : option (list R)) (y0 : list R) (script : list iresR).
+  Hypothesis Hmi : p_max_iter P <> 0%nat.
+  Hypothesis Hm : pb_m pb <> 0%nat.
+
+  (* a stop request ends the run: the record after whose inner solve ALM's own flag is read as set is the LAST one — no
+     further inner solve — and the status follows the ranking Interrupted (inner) / Converged > MaxTime > MaxIter > Interrupted.
+     No hypothesis that the script is long enough: the run does not ask for another element. *)
+  Lemma run_stop_request_ends_run :
+    forall (pre : list irecR) (r : irecR) (post : list irecR),
+      fst (alm_run P pb f0 g0 nanv Σ0 y0 script) = pre ++ r :: post -> ir_stop (it_res r) = true ->
+      post = [] /\
+      let f := snd (alm_run P pb f0 g0 nanv Σ0 y0 script) in
+      f_exhausted f = false /\ f_outer f = S (length pre) /\
+      f_status f =
+        (if is_interrupted (ir_status (it_res r)) then Interrupted
+         else if rec_conv P r then Converged else if ir_oot (it_res r) then MaxTime
+         else if Nat.eqb (S (length pre)) (p_max_iter P) then MaxIter else Interrupted) /\
+      (f_status f = Converged \/ f_status f = MaxTime \/ f_status f = MaxIter \/ f_status f = Interrupted).
+  Proof.
+    intros pre r post Htr Hs. unfold alm_run in *. apply Nat.eqb_neq in Hmi, Hm. rewrite Hmi, Hm in *.
+    destruct (loop_stop_ends P pb script 0 _ pre r post Htr Hs) as (Hpost & He & Ho & Hst & Hi).
+    destruct (rec_status_stop P r Hs) as (_ & Hf & Hcases).
+    split; [exact Hpost|]. cbv zeta. split; [exact He|]. rewrite Nat.add_0_l in Hi. split; [rewrite Ho, Hi; reflexivity|].
+    rewrite Hst. split; [|exact Hcases]. rewrite Hf. unfold rec_ooi. rewrite Hi. reflexivity.
+  Qed.
+End RunStop.
 
 (* ------------------------------------------------------------------ the two shortcuts *)
 
